@@ -77,6 +77,9 @@ pub fn replay(input: &str, output: &str) {
             if cells.iter().any(|c| c.fract() == 0.0 && blocked.contains(&(*c as i64))) { bad.push("blocked-node-on-path"); }
             if cells.windows(2).any(|w| (w[1] - w[0]).abs() > 3.0 * len + 1e-9) { bad.push("nodes-more-than-three-steps-apart"); }
             if stop_at == 0 { bad.push("path-returned-although-cancelled"); }
+            // the flag went up while sample number stop_at was drawn: the iteration under way may still finish (and
+            // connect the trees), but a planner that goes on drawing samples has looked past the raised flag
+            if stop_at > 0 && (*drawn.borrow() as i64) > stop_at && !*overrun.borrow() { bad.push("path-returned-although-cancelled-during-planning"); }
             for b in bad {
                 out.put(json!({"sig": format!("rrt1d:{}:stop-{}", b, stop_class),
                     "detail": format!("real result {} (queries {}); {}", got_r, Value::Array(got_q.clone()), desc), "data": desc}));
@@ -148,6 +151,19 @@ pub fn record(output: &str) {
             }
             let Some(sg) = found else { continue; };
             sg
+        } else if tries % 4 == 1 {
+            // start and goal a few degrees inside the limits of most joints (and apart in joint 2)
+            let near = |r: &mut rand::rngs::StdRng, upper: bool| -> Option<Joints> {
+                for _ in 0..60 {
+                    let q: Joints = std::array::from_fn(|i| if i == 1 { r.gen_range(case.from[1] * 0.6..case.to[1] * 0.6) } else if r.gen_bool(0.8) {
+                        if upper { case.to[i] - r.gen_range(0.001..0.06) } else { case.from[i] + r.gen_range(0.001..0.06) } } else { r.gen_range(case.from[i] * 0.7..case.to[i] * 0.7) });
+                    if !kws.collides(&q) { return Some(q); }
+                }
+                None
+            };
+            let up = r.gen_bool(0.5);
+            let (Some(s), Some(g)) = (near(&mut r, up), near(&mut r, up)) else { continue; };
+            (s, g)
         } else {
             let (Some(s), Some(g)) = (pick_free(&mut r), pick_free(&mut r)) else { continue; };
             (s, g)
